@@ -15,7 +15,9 @@ NAMES = {9: "tab", 10: "lf", 11: "vt", 12: "ff", 13: "cr"}
 ESCAPED = {9: '"\\t"', 10: '"\\n"', 13: '"\\r"', 0: '"\\x00"', 92: '"\\\\"', 127: '"\\x7f"', 201: '"\\xc9"', 228: '"\\xe4"', 8364: '"\\u20ac"'}
 ALLOWED = {"range": ("32...127", [[32, 127]]), "letters": ('"A"..."Z", 0xc9', [[65, 90], [201, 201]])}
 MALFORMED = {"empty": [""], "twochars": ['"ab"', "'xy'"], "unknownname": ["foo", "tabulator"], "float": ["1.5"],
-             "unterminated": ["'ab", '"x'], "junk": ["x", "1.5", ""]}
+             "unterminated": ["'ab", '"x'], "junk": ["x", "1.5", ""],
+             # (runs of characters that are neighbours in the documented sets of quote / escape / separator characters)
+             "neighbours": ["+-", '!"', ":;", ",.", "!\"#$%&'*+-/:;=?\\^_`~", '"\\', ".,"]}
 LINE = {"lf": "\n", "cr": "\r", "crlf": "\r\n", "any": "any", "none": None}
 
 
@@ -60,7 +62,8 @@ def project(data_format):
     fmt = data_format.format
 
     def char(text):
-        return [0] if text == "" else [ord(text)]
+        # (a value of several characters is reported as such: a data format must not hold one)
+        return [0] if text == "" else ([ord(text)] if isinstance(text, str) and len(text) == 1 else ["no single character: %r" % (text,)])
 
     result["header"] = [data_format.header]
     result["encoding"] = [data_format.encoding]
